@@ -440,8 +440,13 @@ impl<'a> IntoIterator for &'a Label {
 
 impl fmt::Display for Label {
     fn fmt(&self, f: &mut fmt::Formatter<'_>) -> fmt::Result {
-        for ch in self.iter() {
-            if ch == b' ' || ch == b'.' || ch == b'\\' {
+        for (i, ch) in self.iter().enumerate() {
+            // Besides space, dot and backslash, the characters that end a
+            // token or start a comment in a zone file need to be escaped,
+            // as does a dollar sign that would otherwise start an entry.
+            if matches!(ch, b' ' | b'.' | b'\\' | b'"' | b'(' | b')' | b';')
+                || (ch == b'$' && i == 0)
+            {
                 write!(f, "\\{}", ch as char)?;
             } else if !(0x20..0x7F).contains(&ch) {
                 write!(f, "\\{:03}", ch)?;
